@@ -177,8 +177,21 @@ func runDumpPhase(rng *rand.Rand, round int) {
 	}
 	rep.Count("dump_entries_decoded", int64(len(entries)))
 	if len(entries) != len(order) {
-		rep.Inconclusive("dump phase: stored %d answers, dump has %d entries", len(order), len(entries))
-		return
+		// answers this tree chose not to keep (see judgeMisses) are left out of the round; more than a few: no round
+		var kept []*dumpCase
+		for _, dc := range order {
+			if _, ok := storedAt[strings.ToLower(dc.r.name)]; ok {
+				kept = append(kept, dc)
+				continue
+			}
+			dc.r.unexpectedMiss("dump", dc.s0, 0)
+			rep.Count("dump_answers_stored_but_not_dumped", 1)
+		}
+		if len(entries) > len(order) || len(kept) != len(entries) || len(kept)*10 < len(order)*9 {
+			rep.Inconclusive("dump phase: stored %d answers, dump has %d entries", len(order), len(entries))
+			return
+		}
+		order = kept
 	}
 
 	noCompress := false
